@@ -1185,7 +1185,7 @@ def cli_level(ctx, snap, oracle, stats, samples, nontrivial):
 
 
 PLACEMENT_WANT = [-1, 101010, 100010, 100010, 100052, 100012, 100007, 99999, 7, 42, 11012, 0, 1, 3, 6, 0, 1007, 1009, 1012, 1006, 2013, 0, 51, 61, 23, 102,
-                  0, 3, 12, 15, 15, 500, 1001, 1001, 1001, 4102, 4102, 102, 102, 2]
+                  0, 3, 12, 15, 15, 500, 1001, 1001, 1001, 4102, 4102, 102, 102, 2, 1234, 0, 112233, 0]
 
 
 def placement(ctx, stats):
